@@ -231,4 +231,3 @@ Theorem C03_tie_update_ema_expr :
         "self.embed_avg / rearrange(cluster_size, '... -> ... 1')"].
 Proof. exact (@glue_update_ema_expr). Qed.
 Print Assumptions C03_tie_update_ema_expr.
-
